@@ -24,6 +24,25 @@ for pid in sorted(P):
     for t in th:
         out.append("* `%s` — %s" % (t["name"].replace("Flyt.Props.", ""), doc_of(t["module"], t["name"]) or "(see %s)" % t["module"]))
     out.append("")
+# translation coverage: which translated functions are mentioned by a refinement module, and the size of the Lean development
+ir = open(os.path.join(ROOT, "lean/FlytModel/Expected/IR.lean")).read()
+funcs = re.findall(r"^def (\w+) : Func", ir, re.M)
+refsrc = "".join(open(f).read() for f in glob.glob(os.path.join(ROOT, "lean/FlytModel/Refine/*.lean")))
+uncovered = [f for f in funcs if not re.search(r"\b" + re.escape(f) + r"\b", refsrc)]
+def count(globpat, rx):
+    n = 0
+    for f in glob.glob(os.path.join(ROOT, globpat), recursive=True):
+        n += len(re.findall(rx, open(f).read(), re.M))
+    return n
+lines = sum(len(open(f).read().splitlines()) for f in glob.glob(os.path.join(ROOT, "lean/FlytModel/**/*.lean"), recursive=True))
+out.insert(0, "### 0.6b Size and translation coverage (generated)\n\n"
+    "* Lean development: %d lines in `lean/FlytModel/`, %d `theorem`s (%d in `Refine/`, %d in `Props/`), %d `Tie` obligations; "
+    "%d theorems / obligations are registered per property in props.json (a theorem may serve several properties).\n"
+    "* Translated functions: %d. Mentioned by a refinement module (`Refine/*.lean`): %d. Not mentioned: %s.\n" % (
+        lines, count("lean/FlytModel/**/*.lean", r"^theorem "), count("lean/FlytModel/Refine/*.lean", r"^theorem "),
+        count("lean/FlytModel/Props/*.lean", r"^theorem "), len(glob.glob(os.path.join(ROOT, "lean/FlytModel/Tie/*.lean"))),
+        sum(len(P[p].get("theorems", [])) for p in P), len(funcs), len(funcs) - len(uncovered),
+        ", ".join("`%s`" % f for f in uncovered) or "none"))
 seeded = []
 res_path = os.path.join(ROOT, "seeded", "RESULTS.json")
 res = json.load(open(res_path)) if os.path.exists(res_path) else {}
